@@ -21,7 +21,7 @@ def _e1(pid, wall_q=75, wall_t=900, min_q=20, min_t=100, assumptions=None):
     }
 
 
-for _p in ('C01', 'C02', 'C03', 'C04', 'C05', 'C06', 'C07', 'C09', 'C12', 'C18', 'C20'):
+for _p in ('C01', 'C02', 'C03', 'C04', 'C05', 'C06', 'C07', 'C09', 'C10', 'C12', 'C18', 'C20'):
     _e1(_p)
 
 PROPS['C08'] = {
